@@ -528,11 +528,11 @@ def run_kani_units(scratch, units, tier, res, logdir):
 # slice extraction (shared by standalone-Kani and Verus units)
 # --------------------------------------------------------------------------
 
-def extract_between(text, start_rx, end_rx, what, include_end=True):
-    """Verbatim run of lines from the unique line matching start_rx through the
-    first following line matching end_rx."""
+def extract_between(text, start_rx, end_rx, what, include_end=True, start_skip=0):
+    """Verbatim run of lines from the unique line matching start_rx (or `start_skip`
+    lines below it) through the first following line matching end_rx."""
     lines = text.split("\n")
-    s = find_anchor(text, start_rx, what + " (slice start)")
+    s = find_anchor(text, start_rx, what + " (slice start)") + start_skip
     erx = re.compile(end_rx)
     for j in range(s, len(lines)):
         if erx.search(lines[j]):
@@ -616,7 +616,7 @@ def fill_extracts(tpl, u, files, anchors, rewrites_applied=None, rewrite_key="re
         text = files[rel].decode()
         what = u["id"] + "/" + ex["name"]
         if ex["kind"] == "slice":
-            body, l0, l1 = extract_between(text, ex["start"], ex["end"], what, not ex.get("end_exclusive", False))
+            body, l0, l1 = extract_between(text, ex["start"], ex["end"], what, not ex.get("end_exclusive", False), ex.get("start_skip", 0))
             anchors[u["id"]][ex["name"]] = "%s:%d-%d" % (rel, l0, l1)
         elif ex["kind"] == "fn":
             sig, body_, l0 = extract_fn(text, ex["anchor"], what)
